@@ -1,6 +1,8 @@
 import ParryModel.Proto
 import ParryModel.C03.Model
 import ParryModel.C03.Oracle
+import ParryModel.C03.Sat
+import ParryModel.C03.SatDriver
 /-! C03 protocol handlers: model evaluation at `Float` and exact-`Rat` oracles on implementation output. -/
 namespace C03
 open Model Proto
@@ -255,6 +257,20 @@ def oracleO (fn : String) (args out : List String) : String :=
         | "o_it" =>
           match run pbool A, run pbool B, run pbool C with
           | some x, some y, some z =>
+            -- absolute judge for polytope pairs (cuboid / triangle): exact separating-axis verdict on the vertices
+            let absolute : Option String :=
+              match a.poly (qiso3 m1), b.poly (qiso3 m2) with
+              | some PA, some PB =>
+                match satVerdict PA PB ((1 / 10000000) * (1 + c.sz) + tol * c.S) with
+                | some true => if x || y || z then
+                    some s!"intersection-reported-for-separated-shapes {c.tag} a={x} b={y} c={z} dist={dist}" else none
+                | some false => if !(x && y && z) then
+                    some s!"no-intersection-reported-for-overlapping-shapes {c.tag} a={x} b={y} c={z} depth={depth}" else none
+                | none => none
+              | _, _ => none
+            match absolute with
+            | some m => "fail " ++ m
+            | none =>
             if x == y && x == z then "pass"
             else if c.exact && x != y then s!"fail verdict-differs-on-identical-data {c.tag} a={x} b={y} dist={dist}"
             else
@@ -926,6 +942,7 @@ def handler (fn : String) : Option Handler :=
   | "o2_contact" | "o2_distance" | "o2_it" | "o2_cp" =>
       some { model := fun _ => some "oracle-only", oracle := fun a o => oracleO2 fn a o }
   | "o2_cast" => some { model := fun _ => some "oracle-only", oracle := fun a o => oracleCast2 a o }
-  | _ => none
+  /- ---------------- closed-form cuboid/cuboid separating-axis test (SatDriver.lean) ---------------- -/
+  | _ => satHandler fn
 
 end C03
